@@ -20,7 +20,7 @@ def run(ctx):
     ctx.ensure_ppl()
     broken = ctx.prove(["PPLV.Props.C03"])
     quick = ctx.tier == "quick"
-    w.run_shapes(ctx, "c03", w.ALL_TYPES, n_hist=60 if quick else 2500, length=12 if quick else 25,
+    w.run_shapes(ctx, "c03", w.ALL_TYPES, n_hist=150 if quick else 2500, length=12 if quick else 25,
                  maxdim=3 if quick else 4)
     for b in broken:
         ctx.violation("proof obligation broken: " + b, {"obligation": b}, found_input=False)
@@ -29,3 +29,10 @@ def run(ctx):
         "the exact result is computed from the arguments as the library reports them through constraints() (numer_denom is exact for every T)",
         "precision is never judged for inexact T (DESIGN section 4 (vii))",
     ]
+
+
+def replay(ctx, path):
+    """bin/check C03 --replay <file>: re-execute the recorded history against the current tree and judge it again"""
+    ctx.ensure_ppl()
+    w.run_replay(ctx, "c03")
+    return 1 if ctx.violations else 0
